@@ -960,11 +960,11 @@ impl Sim {
                 ));
             }
         } else {
-            match &res.out {
-                Err(_) => {}
-                Ok(_) => {
-                    return Err(Stop::Harness("fault fired but observation completed".into()));
-                }
+            if res.out.is_ok() {
+                // the tree under test swallowed the injected failure (e.g. it no longer unwraps
+                // write errors): nothing to compare for this observation
+                self.stats.probe("injected_fault_absorbed_by_the_tree");
+                return Ok(());
             }
             if let (Some(p), Ok(full)) = (&res.partial, &exp.out) {
                 self.stats.check("observe.torn_prefix");
